@@ -7,6 +7,9 @@ use std::path::PathBuf;
 
 use vcommon::ev::{Ctx, Tier};
 
+#[global_allocator]
+static ALLOC: vcommon::alloc::VerifAlloc = vcommon::alloc::VerifAlloc;
+
 mod c01;
 mod c02;
 mod c03;
@@ -17,6 +20,7 @@ mod c07;
 mod c08;
 mod c09;
 mod c10;
+mod c11;
 mod c17;
 mod c18;
 
@@ -77,6 +81,11 @@ const PROPS: &[PropDef] = &[PropDef {
     level: "exploration",
     run: c10::run,
     replay: c10::replay,
+}, PropDef {
+    id: "C11",
+    level: "exploration",
+    run: c11::run,
+    replay: c11::replay,
 }, PropDef {
     id: "C17",
     level: "exploration",
